@@ -423,7 +423,7 @@ def run(ctx):
         explore(ctx, hs, drv, 500, 200, "main", stats)
     else:
         explore(ctx, hs, drv, 3000, 1200, "main", stats)
-    if ctx.proof_broken or ctx.corr_broken:
+    if (ctx.proof_broken or ctx.corr_broken) and not ctx.violations:
         ctx.log("obligation or correspondence broken: widening the search for a failing input")
         for i in range(3):
             explore(ctx, hs, drv, 150, 60, "search%d" % i, stats)
